@@ -72,6 +72,7 @@ Horsepower.equals(550 * Foot * PoundForce / Second)
 
 Donkeypower = Power.unit("donkeypower", "donkeypower")
 Donkeypower.equals(1 / 3 * Horsepower)
+Donkeypower.equals(550 / 3 * Foot * PoundForce / Second)
 
 MetricHorsepower = Power.unit("metric horsepower", "hp(M)")
 MetricHorsepower.equals(735.49875 * Watt)
